@@ -29,6 +29,7 @@ impl TraitHandler for OrdEnumHandler {
         let mut cmp_token_stream = proc_macro2::TokenStream::new();
 
         let discriminant_type = DiscriminantType::from_ast(ast)?;
+        let discriminant_wide_type = discriminant_type.wide();
 
         let mut arms_token_stream = proc_macro2::TokenStream::new();
 
@@ -37,7 +38,7 @@ impl TraitHandler for OrdEnumHandler {
         let mut discriminant_arms_token_stream = proc_macro2::TokenStream::new();
 
         if let Data::Enum(data) = &ast.data {
-            discriminant_arms_token_stream.extend(DiscriminantType::discriminant_arms(data));
+            discriminant_arms_token_stream.extend(discriminant_type.discriminant_arms(data));
 
             for variant in data.variants.iter() {
                 let _ = TypeAttributeBuilder {
@@ -213,7 +214,7 @@ impl TraitHandler for OrdEnumHandler {
             cmp_token_stream.extend(quote!(::core::cmp::Ordering::Equal));
         } else {
             let discriminant_cmp = quote! {
-                <::core::primitive::#discriminant_type as ::core::cmp::Ord>::cmp(
+                <::core::primitive::#discriminant_wide_type as ::core::cmp::Ord>::cmp(
                     &match self { #discriminant_arms_token_stream },
                     &match other { #discriminant_arms_token_stream },
                 )
